@@ -13,6 +13,7 @@ type letter struct {
 	Name string
 	Raw  []byte // the bytes a client writes for this request
 	Note string
+	App  bool // exercises a response helper whose state lives in the application (not in a pooled object)
 }
 
 func req(method, target string, hdrs []string, body string) []byte {
@@ -98,6 +99,7 @@ var (
 )
 
 func buildAlphabets() {
+	setupFiles()
 	// the cookies the server itself issues for the two redirect letters (taken from a real run)
 	redir1 := req("GET", "/redir1?name=bob", nil, "")
 	redir2 := req("GET", "/redir2", nil, "")
@@ -134,6 +136,7 @@ func buildAlphabets() {
 		{Name: "m405", Raw: req("DELETE", "/h1/alpha", nil, ""), Note: "405"},
 		{Name: "m404", Raw: req("GET", "/missing/alpha", nil, ""), Note: "404"},
 		{Name: "m501", Raw: req("FOO", "/h1/alpha", nil, ""), Note: "unknown method: 501 before routing"},
+		{Name: "render-layout", Raw: req("GET", "/vl", nil, ""), Note: "Render with an explicit layout (through the application's views engine)", App: true},
 	}
 
 	probes = []*letter{
@@ -151,5 +154,22 @@ func buildAlphabets() {
 		{Name: "flash-2empty", Raw: flashReq("/p1/v1", "\x92\x80\x80")},
 		{Name: "flash-3empty", Raw: flashReq("/p1/v1", "\x93\x80\x80\x80")},
 		{Name: "malformed", Raw: []byte("GET /p1/v1\r\nHost: app.example\r\n\r\n")},
+	}
+
+	// helpers with application-level state: every member of the family is a history letter and a probe.
+	// The request carries a Range and an Accept-Encoding header so that each field shows in the
+	// response; fasthttp does not compress a response to a Range request, so the Compress member
+	// (and a second probe of the base member) are asked without Range.
+	for _, v := range sendFileFamily {
+		hdrs := []string{"Range", "bytes=4-11", "Accept-Encoding", "gzip"}
+		if v.Name == "sf-compress" {
+			hdrs = hdrs[2:]
+		}
+		raw := req("GET", "/sf/"+v.Name, hdrs, "")
+		historyAlphabet = append(historyAlphabet, &letter{Name: v.Name, Raw: raw, Note: "SendFile: " + v.Note, App: true})
+		probes = append(probes, &letter{Name: v.Name, Raw: raw, Note: "SendFile: " + v.Note, App: true})
+		if v.Name == "sf-plain" {
+			probes = append(probes, &letter{Name: "sf-plain-gz", Raw: req("GET", "/sf/"+v.Name, hdrs[2:], ""), Note: "SendFile: " + v.Note + ", request without Range", App: true})
+		}
 	}
 }
